@@ -18,6 +18,7 @@ extern int verif_exc;
 #ifdef VERIF_CBMC
 #define VERIF_ASSERT(c, msg) __CPROVER_assert((c), msg)
 #define VERIF_ASSUME(c) __CPROVER_assume(c)
+#define VERIF_REACH(msg) __CPROVER_assert(0, msg)
 size_t nondet_size_t(void);
 int nondet_int(void);
 _Bool nondet_bool(void);
@@ -26,6 +27,7 @@ _Bool nondet_bool(void);
 static void verif_fail(const char* msg) { fprintf(stderr, "VERIF_ASSERT failed: %s\n", msg); abort(); }
 #define VERIF_ASSERT(c, msg) ((c) ? (void)0 : verif_fail(msg))
 #define VERIF_ASSUME(c) ((void)0)
+#define VERIF_REACH(msg) ((void)0)
 #endif
 #ifndef VERIF_MAXBUF
 #define VERIF_MAXBUF 0x7fffffffUL   /* SQLite's hard blob limit (2^31 - 1): no database can hand the decoders more */
